@@ -4,14 +4,15 @@ import copy
 from .. import cases
 
 TITLE = "Alignment validity checks accept exactly partitions and covers"
-DECIDING = ["M-CHECK", "M-CHECK-SOFT", "M-CTOR", "M-ORDER"]
+DECIDING = ["M-CHECK", "M-CHECK-SOFT", "M-CTOR", "M-ORDER", "M-CHECK-AFTER-EDIT"]
 LEVEL = "exploration"
 RULE = ("seeded random continua up to 4x5 units (incl. identical units across annotators, unlabelled units) x candidate "
         "alignments: random valid partitions and near-valid mutants (unit dropped, whole unitary alignment dropped, unit "
         "duplicated into another unitary alignment, unitary alignment duplicated, unit moved under another annotator, "
         "foreign unit added once, all-empty unitary alignment added, one annotator named in two slots of a unitary alignment, "
         "the same unit twice in one unitary alignment, slots permuted, unitary alignments permuted, up to "
-        "3 mutations combined); thorough tier also enumerates ALL partitions of tiny continua x every single mutation. "
+        "3 mutations combined), the alignment without any unitary alignment, and check / same-size edit of the continuum object (remove + add) / check "
+        "again histories; thorough tier also enumerates ALL partitions of tiny continua x every single mutation. "
         "Each candidate is judged by Alignment.check(), SoftAlignment.check(), both constructors with "
         "check_validity=True, check(continuum) with the continuum passed explicitly, before and after shuffling; the "
         "reference predicate counts each (annotator, unit) of the continuum among the real slots. non-trivial = "
@@ -137,7 +138,7 @@ def mutate(rng, cspec, aspec, kind):
 
 def judge(ctx, cspec, aspec, tag):
     from pygamma_agreement.alignment import Alignment, SoftAlignment, SetPartitionError
-    if not aspec or foreign_duplicates(cspec, aspec):
+    if foreign_duplicates(cspec, aspec):
         return
     cnt = counts_of(cspec, aspec)
     exp_part = all(c == 1 for c in cnt.values())
@@ -212,7 +213,59 @@ def judge(ctx, cspec, aspec, tag):
                                "counts": sorted(set(cnt.values()))}, monitor=mon)
 
 
+def check_edit_case(ctx, case):
+    """ONE continuum object: a valid alignment is checked against it, the continuum is edited without changing any
+    annotator's number of units (a unit relabelled or moved through remove + add), and both the old alignment (now holding
+    a vanished unit and lacking the new one) and an alignment rebuilt for the new content are checked against the SAME object."""
+    from pygamma_agreement.alignment import SetPartitionError
+    from pyannote.core import Segment
+    cspec = case["continuum"]
+    continuum = cases.build_continuum(cspec)
+    names = sorted(cspec["ann"].keys())
+
+    def outcome(fn):
+        try:
+            fn()
+            return "ok"
+        except SetPartitionError:
+            return "SetPartitionError"
+        except Exception as e:
+            return "other:" + type(e).__name__
+    cur = {a: [list(u) for u in us] for a, us in cspec["ann"].items()}
+    for step, (a, k, new_unit) in enumerate([(None, None, None)] + [tuple(e) for e in case["edits"]]):
+        old_spec = {"ann": {x: [list(u) for u in us] for x, us in cur.items()}}
+        if a is not None:
+            victim = cur[a][k]
+            unit = [u for u in continuum[a] if (u.segment.start, u.segment.end, u.annotation) == tuple(victim)][0]
+            continuum.remove(a, unit)
+            continuum.add(a, Segment(new_unit[0], new_unit[1]), new_unit[2])
+            cur[a][k] = list(new_unit)
+        now_spec = {"ann": {x: sorted(us, key=cases.unit_key) for x, us in cur.items()}}
+        for soft in (False, True):
+            mon = "M-CHECK-SOFT" if soft else "M-CHECK"
+            fresh = cases.build_alignment(now_spec, [{x: i for x in [n]} | {y: None for y in names if y != n}
+                                                     for n in names for i in range(len(now_spec["ann"][n]))],
+                                          continuum=None, soft=soft)
+            ctx.count(mon)
+            ctx.count("M-CHECK-AFTER-EDIT")
+            got = outcome(lambda: fresh.check(continuum))
+            if got != "ok":
+                ctx.fail(("soft" if soft else "partition") + ":valid-alignment-rejected-after-an-edit-of-the-continuum",
+                         {"got": got, "step": step, "edit": [a, k, new_unit]}, monitor=mon)
+            if a is not None:
+                stale = cases.build_alignment(old_spec, [{x: i for x in [n]} | {y: None for y in names if y != n}
+                                                         for n in names for i in range(len(old_spec["ann"][n]))],
+                                              continuum=None, soft=soft)
+                ctx.count(mon)
+                got = outcome(lambda: stale.check(continuum))
+                if got != "SetPartitionError":
+                    ctx.fail(("soft" if soft else "partition") + ":alignment-of-the-former-content-accepted-after-an-edit",
+                             {"got": got, "step": step, "edit": [a, k, new_unit]}, monitor=mon)
+
+
 def check_case(ctx, case):
+    if "edits" in case:
+        return check_edit_case(ctx, case)
     judge(ctx, case["continuum"], case["alignment"], case.get("mutations"))
 
 
@@ -251,6 +304,36 @@ def run(ctx):
         case = {"continuum": cspec, "alignment": asp, "mutations": muts}
         ctx.begin_case(case)
         ctx.observe("mutations", "close-large-coordinates+" + muts[0])
+        check_case(ctx, case)
+    # an alignment without any unitary alignment: a partition of nothing - refused (set-partition error) as soon as the
+    # continuum holds a unit
+    for n in (2, 3):
+        for k in (0, 1, 2):
+            cspec = {"ann": {a: [[float(i), float(i) + 1.0, "x"] for i in range(k)] for a in cases.ANNOTATOR_NAMES[:n]}, "family": "empty-alignment"}
+            case = {"continuum": cspec, "alignment": [], "mutations": ["empty-alignment"]}
+            ctx.begin_case(case, nontrivial=k > 0)
+            ctx.observe("mutations", "empty-alignment")
+            check_case(ctx, case)
+    # check, edit the continuum object without changing unit counts, check again (the same object)
+    for _ in range(ctx.scale(25, 600)):
+        n = rng.randint(2, 3)
+        cspec = cases.gen_continuum(rng, n_annot=n, max_units=3, min_total=2, allow_empty=False, family=rng.choice(["grid", "touching", "dyadic"]))
+        cspec.pop("readd", None)
+        cspec["ann"] = {a: [list(u) for u in us] for a, us in cspec["ann"].items()}
+        edits = []
+        cur = {a: [list(u) for u in us] for a, us in cspec["ann"].items()}
+        for _e in range(rng.randint(1, 3)):
+            a = rng.choice(sorted(cur))
+            k = rng.randrange(len(cur[a]))
+            u = cur[a][k]
+            new = [u[0], u[1], rng.choice([l for l in ["a", "b", "c", "zz"] if l != u[2]])] if rng.random() < 0.6 else [u[0] + 1000.0, u[1] + 1000.0, u[2]]
+            if any(tuple(new) == tuple(x) for x in cur[a]):
+                continue
+            edits.append([a, k, new])
+            cur[a][k] = new
+        case = {"continuum": cspec, "edits": edits}
+        ctx.begin_case(case)
+        ctx.observe("mutations", "check-edit-check-on-one-continuum-object")
         check_case(ctx, case)
     # continua in which annotators are declared but nobody has a unit (a falsy Continuum): the only candidates are
     # all-empty unitary alignments, which must be accepted - also when the continuum is passed to check() explicitly
